@@ -52,7 +52,11 @@ Print Assumptions C13_bisect_cache_transparent.
 (* round trip: every tuple of every set with its set header, in encoded order; any number of
    sets, address size 4 or 8 per set IN ANY MIXTURE, each set starting wherever the previous one
    ends (no alignment of set starts is assumed: the header padding is counted from the start of
-   the set, DWARF 6.1.2), any padding/trailing bytes, both byte orders *)
+   the set, DWARF 6.1.2), any padding/trailing bytes, both byte orders.
+   Tuples: wf_aranges (tuple_ok) excludes only the terminator pair (0, 0).  A range beginning
+   at address 0 (0, len > 0) and a zero-length tuple with non-zero address (a, 0) are in the
+   domain at any position of a set: they are listed, and so is everything after them.  Ranges
+   may overlap here; disjointness is a hypothesis of the lookup theorems only. *)
 Theorem C13_aranges_entries_exact : forall le sets,
   wf_aranges sets = true ->
   get_entries le false (encode_aranges le sets) (zlen (encode_aranges le sets)) =
@@ -70,7 +74,14 @@ Proof. exact aranges_init_exact. Qed.
 Print Assumptions C13_aranges_init_exact.
 
 (* lookup: for pairwise non-conflicting ranges in ANY order (adjacent allowed), the answer is
-   Some o iff some tuple [b, b+len) with unit offset o contains the address *)
+   Some o iff some tuple [b, b+len) with unit offset o contains the address.
+   Domain (ranges_disjoint = no tuple begins inside another one): ranges beginning at address 0
+   are in; zero-length tuples are in as long as they do not begin inside a range (in a gap, right
+   at the end of a range, several at one address): they contain no address and hide nothing.
+   A zero-length tuple that begins inside a range is excluded for good reason: the bisect lands
+   on it instead of the enclosing range and the answer is None
+   (C13_lookup_setwise_refuted below); such tables stay in the domain of
+   C13_aranges_entries_exact. *)
 Theorem C13_lookup_iff_contained : forall es a,
   ranges_disjoint es = true ->
   exists r,
@@ -280,16 +291,26 @@ Print Assumptions C13_die_from_lut.
 
 (* ================================================================ non-vacuity *)
 (* an 8-byte-address set at offset 24 (not a multiple of its tuple size 16) between two
-   4-byte-address sets, the last one at offset 92 (not a multiple of 8) *)
+   4-byte-address sets, the last one at the odd offset 123 (three free bytes after the second
+   set's terminator); a range beginning at
+   address 0 in the middle of a set and a zero-length tuple, each followed by further tuples *)
 Definition ex_sets : list arange_set :=
   [mk_arange_set 5 0x40 4 [0; 0; 0; 0] [] [];
-   mk_arange_set 2 0 8 [1; 2; 3; 4] [(0x1010, 0x20); (0x1000, 0x10)] [];
+   mk_arange_set 2 0 8 [1; 2; 3; 4] [(0x1010, 0x20); (0, 8); (0x2000, 0); (0x1000, 0x10)] [5; 6; 7];
    mk_arange_set 2 0x80 4 [9; 9; 9; 9] [(0x10, 8)] [7]].
 Example C13_ex_aranges :
   wf_aranges ex_sets = true /\ aranges_aligned ex_sets = false /\
   ranges_disjoint (aranges_entries ex_sets) = true /\
+  zlen (encode_aranges false (firstn 2 ex_sets)) = 123 /\
+  map (fun e => (ae_begin e, ae_length e)) (aranges_entries ex_sets) =
+    [(0x1010, 0x20); (0, 8); (0x2000, 0); (0x1000, 0x10); (0x10, 8)] /\
+  get_entries false false (encode_aranges false ex_sets) (zlen (encode_aranges false ex_sets)) =
+    Ok (aranges_entries ex_sets) /\
   lookup_spec (aranges_entries ex_sets) 0x100f = Some 0 /\
   lookup_spec (aranges_entries ex_sets) 0x1030 = None /\
+  lookup_spec (aranges_entries ex_sets) 0x2000 = None /\
+  (do t <- aranges_init false (encode_aranges false ex_sets) (zlen (encode_aranges false ex_sets));
+   cu_offset_at_addr t 0) = Ok (Some 0) /\
   (do t <- aranges_init false (encode_aranges false ex_sets) (zlen (encode_aranges false ex_sets));
    cu_offset_at_addr t 0x17) = Ok (Some 0x80).
 Proof. vm_compute. repeat split; reflexivity. Qed.
